@@ -1,7 +1,7 @@
 import PysnarkModel.Model.Prog
 /-!
 # Block branching (`pysnark/branching.py`): `BranchingValues`, `IfContext`, `WhileContext`,
-`ObliviousIterator`/`_range`, `_breakif`, thunked `if_then_else`
+`ObliviousIterator`/`_range`, `_breakif`, `if_then_else` on evaluated and on thunked branches
 
 Two layers.
 
@@ -11,9 +11,12 @@ Two layers.
   `ObliviousIterator.__next__`, `_endfor` acting on the `BranchingValues` object (an insertion
   ordered dict of tracked variables plus the stack of open contexts).
 * The *program layer* is a small structured statement language (the AST that
-  `harness/props/c09.py` generates and `harness/worker_block.py` renders as Python source) and
-  its interpreter `execBlock`, which calls the library layer in exactly the order in which the
-  rendered source calls the real functions.
+  `harness/props/c09.py` / `c09_typed.py` generate and `harness/worker_block.py` renders as Python
+  source) and its interpreter `execBlock`, which calls the library layer in exactly the order in
+  which the rendered source calls the real functions.
+
+Tracked variables hold values of every kind the library merges: secret integers (`LinComb`),
+booleans (`LinCombBool`), fixed-point numbers (`LinCombFxp`) and (nested) lists of these.
 
 Modelling decisions (validated by the correspondence run, stated in the evidence):
 
@@ -22,40 +25,167 @@ Modelling decisions (validated by the correspondence run, stated in the evidence
   structured interpreter knows statically which call is the first one (the harness renders every
   `while` on a line of its own), so the line number is not modelled.
 * Object identity.  `if_then_else` starts with `if truev is falsev: return truev`, which is how a
-  variable that a branch did not rebind costs no constraint (`backup()` deep-copies, and
-  `LinComb.__deepcopy__` returns `self`).  Tracked variables therefore hold *objects*: a `LinComb`
-  plus an identity stamp.  Operators create fresh objects, `_.x = _.y` and `_.x = inp[i]` alias.
-  Equal stamps imply equal `LinComb`s in every real run; the model checks this when it takes the
-  shortcut and stops with `unmodelled` otherwise (never observed; counted by the harness), so that
-  no freshness invariant is needed in the proofs.
-* Tracked variables hold `LinComb`s (secret integers); conditions are `LinCombBool`s (what the
-  comparison operators return).  Other kinds stop with `unmodelled`.
+  variable that a branch did not rebind costs no constraint.  Scalars therefore carry an identity
+  stamp.  Operators create fresh objects; bare names (`_.y`, `inp[i]`, `_.l[i]`) denote the
+  existing object.  `BranchingValues.backup()` deep-copies: `LinComb.__deepcopy__` returns `self`
+  (same stamp), while `LinCombBool` / `LinCombFxp` have no such method and are re-created around the
+  same `LinComb`: a copy is a new object that is never identical to anything it is compared with
+  (stamp `none`).  Equal stamps imply equal objects in every real run; the model checks this when it
+  takes the shortcut and stops with `unmodelled` otherwise (never observed; counted by the harness),
+  so that no freshness invariant is needed in the proofs.
+* Lists have value semantics: `_.l[i] = e` replaces the element of the tracked variable.  Python
+  lists are objects; the two agree as long as no list object reachable under two names is updated in
+  place (the generator's side condition; the known finding C09-list-inplace-through-reference is
+  exactly such a program).  Identity of *list* objects is therefore not modelled (the shortcut
+  `truev is falsev` on two lists returns a list with the same elements as the element-wise merge).
+* Operand kinds for which the library computes something else than Python (`LinComb < LinCombFxp`,
+  `~LinComb`, fixed point times fixed point, which truncates) and list arithmetic stop with
+  `unmodelled`; so do selections between lists of different lengths (`zip` truncates silently).
 -/
 namespace Pysnark
 
+/-! ## trees (nested lists) -/
+
+/-- a value that is a scalar or a (nested) Python list -/
+inductive PTree (α : Type) where
+  | leaf (a : α)
+  | node (ts : List (PTree α))
+deriving Repr
+
+namespace PTree
+variable {α β : Type}
+
+mutual
+def map (f : α → β) : PTree α → PTree β
+  | .leaf a => .leaf (f a)
+  | .node ts => .node (mapL f ts)
+def mapL (f : α → β) : List (PTree α) → List (PTree β)
+  | [] => []
+  | t :: ts => map f t :: mapL f ts
+end
+
+mutual
+/-- every leaf satisfies `p` -/
+def all (p : α → Bool) : PTree α → Bool
+  | .leaf a => p a
+  | .node ts => allL p ts
+def allL (p : α → Bool) : List (PTree α) → Bool
+  | [] => true
+  | t :: ts => all p t && allL p ts
+end
+
+/-- `t[i0][i1]…` -/
+def get? : PTree α → List Nat → Option (PTree α)
+  | t, [] => some t
+  | .node ts, i :: p =>
+    match ts[i]? with
+    | some t => get? t p
+    | none => none
+  | .leaf _, _ :: _ => none
+
+/-- `t[i0][i1]… = v` (value semantics) -/
+def set : PTree α → List Nat → PTree α → Option (PTree α)
+  | _, [], v => some v
+  | .node ts, i :: p, v =>
+    match ts[i]? with
+    | some t => (set t p v).map (fun t' => .node (ts.set i t'))
+    | none => none
+  | .leaf _, _ :: _, _ => none
+end PTree
+
+/-! ## scalars -/
+
+inductive TKind | int | bool | fxp
+deriving DecidableEq, Repr
+
+/-- a scalar Python object: a plain `int`, or a `LinComb` / `LinCombBool` / `LinCombFxp` (kind, the
+wrapped `LinComb`) with its identity stamp (`none`: a deep copy, identical to nothing else) -/
+inductive SVal
+  | pub (c : Int)
+  | sc (k : TKind) (l : LinComb) (id : Option Nat)
+deriving DecidableEq, Repr
+
+/-- what a tracked variable / an expression holds -/
+abbrev TVal := PTree SVal
+
+namespace SVal
+def toVal : SVal → Val
+  | .pub c => .int c
+  | .sc .int l _ => .lc l
+  | .sc .bool l _ => .lcb l
+  | .sc .fxp l _ => .fxp l
+
+/-- a freshly created object -/
+def ofVal (v : Val) (id : Nat) : Option SVal :=
+  match v with
+  | .int c => some (.pub c)
+  | .lc l => some (.sc .int l (some id))
+  | .lcb l => some (.sc .bool l (some id))
+  | .fxp l => some (.sc .fxp l (some id))
+  | _ => none
+
+/-- `truev is falsev` (for two separately created plain ints: CPython caches −5…256) -/
+def sameObj : SVal → SVal → Bool
+  | .sc _ _ (some i), .sc _ _ (some j) => i == j
+  | .pub a, .pub b => a == b && decide (-5 ≤ a) && decide (a ≤ 256)
+  | _, _ => false
+
+def isSecret : SVal → Bool
+  | .sc _ _ _ => true
+  | .pub _ => false
+
+/-- `copy.deepcopy` -/
+def dcopy : SVal → SVal
+  | .sc .int l id => .sc .int l id          -- `LinComb.__deepcopy__` returns `self`
+  | .sc k l _ => .sc k l none               -- a new wrapper around the same `LinComb`
+  | .pub c => .pub c
+end SVal
+
+/-- tracked variables hold secrets (at every leaf) -/
+def TVal.isSecret (t : TVal) : Bool := t.all SVal.isSecret
+
+def TVal.dcopy (t : TVal) : TVal := t.map SVal.dcopy
+
 /-! ## the statement language -/
 
+mutual
 inductive BExpr
   | var (x : Nat)
+  /-- `inp[i]`: a secret integer input -/
   | inp (i : Nat)
+  /-- `finp[i]`: a secret fixed-point input -/
+  | finp (i : Nat)
   | const (c : Int)
   | loopvar (v : Nat)
   | add (a b : BExpr)
   | sub (a b : BExpr)
   | mul (a b : BExpr)
-deriving Repr, DecidableEq
+  /-- a comparison: a boolean -/
+  | cmp (op : Cmp) (a b : BExpr)
+  /-- `~a`, `a & b`, `a | b` on booleans -/
+  | not (a : BExpr)
+  | and (a b : BExpr)
+  | or (a b : BExpr)
+  /-- `[e0, e1, …]` -/
+  | list (es : BExprs)
+  /-- `e[i]` with a public index -/
+  | item (e : BExpr) (i : Nat)
+inductive BExprs
+  | nil
+  | cons (e : BExpr) (es : BExprs)
+end
 
-/-- a comparison of two expressions -/
-structure BCond where
-  op : Cmp
-  lhs : BExpr
-  rhs : BExpr
-deriving Repr, DecidableEq
+/-- a condition is an expression that evaluates to a boolean -/
+abbrev BCond := BExpr
 
 mutual
 inductive BStmt
   /-- `_.x = e` -/
   | assign (x : Nat) (e : BExpr)
+  /-- `_.x[i0][i1]… = e` -/
+  | setitem (x : Nat) (path : List Nat) (e : BExpr)
+  /-- `_.x = if_then_else(c, t, f)` on evaluated branches -/
+  | sel (x : Nat) (c : BCond) (t f : BExpr)
   /-- `_.x = if_then_else(c, lambda: t, lambda: f)` -/
   | ite (x : Nat) (c : BCond) (t f : BExpr)
   /-- `if _if(c): body` followed by `_elif`/`_else` arms and `_endif()` -/
@@ -75,24 +205,18 @@ end
 
 /-! ## `BranchingValues` -/
 
-/-- a Python object holding a `LinComb`: the value and its identity -/
-structure Obj where
-  v : LinComb
-  id : Nat
-deriving Repr, DecidableEq
-
-/-- `BranchingValues.vals`: insertion ordered dict from variable names to objects -/
-abbrev Vals := List (Nat × Obj)
+/-- `BranchingValues.vals`: insertion ordered dict from variable names to values -/
+abbrev Vals := List (Nat × TVal)
 
 namespace Vals
-def get? : Vals → Nat → Option Obj
+def get? : Vals → Nat → Option TVal
   | [], _ => none
   | (y, o) :: t, x => if y = x then some o else get? t x
 
 def has (vs : Vals) (x : Nat) : Bool := (vs.get? x).isSome
 
 /-- `d[x] = o`: in place when the key exists, appended otherwise -/
-def set : Vals → Nat → Obj → Vals
+def set : Vals → Nat → TVal → Vals
   | [], x, o => [(x, o)]
   | (y, p) :: t, x, o => if y = x then (y, o) :: t else (y, p) :: set t x o
 
@@ -100,11 +224,16 @@ def set : Vals → Nat → Obj → Vals
 def removeAll (vs other : Vals) : Vals := vs.filter (fun kv => !other.has kv.1)
 
 /-- `for nm in other: d[nm] = other[nm]` (the value is looked up by name, as in the source) -/
-def setFrom (other acc : Vals) (kv : Nat × Obj) : Vals :=
+def setFrom (other acc : Vals) (kv : Nat × TVal) : Vals :=
   match other.get? kv.1 with
   | some o => acc.set kv.1 o
   | none => acc
 def setAll (vs other : Vals) : Vals := other.foldl (setFrom other) vs
+
+/-- `BranchingValues.backup()`: `copy.deepcopy` of every value -/
+def backup : Vals → Vals
+  | [] => []
+  | (y, o) :: t => (y, o.dcopy) :: backup t
 end Vals
 
 /-- an open `IfContext` / `WhileContext` -/
@@ -130,15 +259,55 @@ structure BSt where
   stack : List BCtx := []
 deriving Repr
 
-/-! ## `if_then_else` on two objects and the merges of `BranchContext.exit` -/
+/-! ## `if_then_else` on evaluated values and the merges of `BranchContext.exit` -/
 
-/-- `if_then_else(cond, truev, falsev)` for a `LinCombBool` condition and two `LinComb` objects -/
-def mergeObj (cond : LinComb) (t f : Obj) (next : Nat) : M (Obj × Nat) :=
-  if t.id = f.id then
-    (if t.v = f.v then pure (t, next) else raise .unmodelled)     -- `truev is falsev`
+/-- `if isinstance(truev, LinCombFxp): falsev = LinCombFxp._ensurefxp(falsev)` -/
+def coerceF (t f : Val) : M Val :=
+  match t with
+  | .fxp _ => do let y ← ensurefxp f; pure (Val.fxp y)
+  | _ => pure f
+
+/-- the scalar arm of `if_then_else`: `falsev = _ensurefxp(falsev)` when `truev` is fixed point,
+then `falsev + cond * (truev - falsev)` (`LinCombBool.__mul__`: `self.lc * other`) -/
+def iteScalar (cond : LinComb) (t f : Val) : M Val := do
+  let f' ← coerceF t f
+  let d ← subV t f'
+  let prod ← mulLV cond d
+  addV f' prod
+
+/-- the result of an operator: a new object -/
+def freshS (v : Val) (n : Nat) : M (SVal × Nat) :=
+  match SVal.ofVal v n with
+  | some o => pure (o, n + 1)
+  | none => raise .unmodelled
+
+/-- `if_then_else(cond, truev, falsev)` for a `LinCombBool` condition and two scalars -/
+def mergeS (cond : LinComb) (t f : SVal) (n : Nat) : M (SVal × Nat) :=
+  if SVal.sameObj t f then
+    (if t = f then pure (t, n) else raise .unmodelled)     -- `truev is falsev`
   else do
-    let r ← iteLLL cond t.v f.v
-    pure (⟨r, next⟩, next + 1)
+    let r ← iteScalar cond t.toVal f.toVal
+    freshS r n
+
+mutual
+/-- `if_then_else(cond, truev, falsev)` on evaluated values: scalars, or lists merged element-wise -/
+def mergeT (cond : LinComb) : TVal → TVal → Nat → M (TVal × Nat)
+  | .leaf a, .leaf b, n => do
+    let (r, n) ← mergeS cond a b n
+    pure (.leaf r, n)
+  | .node ts, .node fs, n => do
+    let (rs, n) ← mergeTL cond ts fs n
+    pure (.node rs, n)
+  | .node _, .leaf _, _ => raise .type            -- `zip(truev, falsev)`: not iterable
+  | .leaf _, .node _, _ => raise .type            -- `truev - falsev` with a list
+def mergeTL (cond : LinComb) : List TVal → List TVal → Nat → M (List TVal × Nat)
+  | t :: ts, f :: fs, n => do
+    let (r, n) ← mergeT cond t f n
+    let (rs, n) ← mergeTL cond ts fs n
+    pure (r :: rs, n)
+  | [], [], n => pure ([], n)
+  | _, _, _ => raise .unmodelled                  -- `zip` stops at the shorter list
+end
 
 /-- `for nm in self.nodefvals: … self.nodefvals[nm] = if_then_else(self.cond, self.ctx.vals[nm], self.nodefvals[nm])` -/
 def mergeNodef (cond : LinComb) (vals : Vals) : Vals → Nat → M (Vals × Nat)
@@ -147,7 +316,7 @@ def mergeNodef (cond : LinComb) (vals : Vals) : Vals → Nat → M (Vals × Nat)
     match vals.get? x with
     | none => raise .runtime                 -- "branch did not set value for x"
     | some t => do
-      let (r, n) ← mergeObj cond t o n
+      let (r, n) ← mergeT cond t o n
       let (rs, n) ← mergeNodef cond vals rest n
       pure ((x, r) :: rs, n)
 
@@ -158,7 +327,7 @@ def mergeBak (cond : LinComb) (bak : Vals) : Vals → Nat → M (Vals × Nat)
     match bak.get? x with
     | none => raise .runtime                 -- "branch set spurious value: x"
     | some f => do
-      let (r, n) ← mergeObj cond t f n
+      let (r, n) ← mergeT cond t f n
       let (rs, n) ← mergeBak cond bak rest n
       pure ((x, r) :: rs, n)
 
@@ -167,7 +336,7 @@ def mergeBak (cond : LinComb) (bak : Vals) : Vals → Nat → M (Vals × Nat)
 /-- `BranchContext.enter(nwcond)`: snapshot, remember the condition, install the guard -/
 def BCtx.enter (ctx : BCtx) (nwcond : LinComb) (bv : BV) : M BCtx := do
   let og ← addGuard (.lcb nwcond)
-  pure { ctx with bak := bv.vals, cond := nwcond, origguard := og }
+  pure { ctx with bak := bv.vals.backup, cond := nwcond, origguard := og }
 
 /-- `BranchContext.exit()` -/
 def BCtx.exit (ctx : BCtx) (bv : BV) : M (BCtx × BV) := do
@@ -326,8 +495,10 @@ def bEndwhile (bs : BSt) : M BSt :=
 
 /-- what the rendered source can read besides the tracked variables -/
 structure BEnv where
-  /-- `inp[i]`: the `PrivVal` objects of the secret inputs -/
-  inputs : List Obj
+  /-- `inp[i]`: the `PrivVal` objects of the secret integer inputs -/
+  inputs : List SVal
+  /-- `finp[i]`: the `PrivValFxp` objects of the secret fixed-point inputs -/
+  finputs : List SVal := []
   /-- loop variables in scope (plain Python ints) -/
   lvs : List (Nat × Int) := []
 
@@ -335,44 +506,118 @@ def lookupLv : List (Nat × Int) → Nat → Option Int
   | [], _ => none
   | (y, k) :: t, x => if y = x then some k else lookupLv t x
 
-def evalE (env : BEnv) (bv : BV) : BExpr → M Val
-  | .var x => match bv.vals.get? x with
-    | some o => pure (.lc o.v)
+/-- operand kinds of a comparison for which the library's answer is Python's: two integers (not both
+plain), or a fixed-point number on the left (the other side is converted), or a plain int on the
+left of a fixed-point number (the reflected method).  `LinComb < LinCombFxp` is off by the scaling
+factor (recorded under C14); booleans compare through `_ensurebool` and are not used. -/
+def cmpOK : Val → Val → Bool
+  | .lc _, .lc _ | .lc _, .int _ | .int _, .lc _ => true
+  | .fxp _, .lc _ | .fxp _, .int _ | .fxp _, .fxp _ | .fxp _, .lcb _ => true
+  | .int _, .fxp _ => true
+  | _, _ => false
+
+/-- fixed point times fixed point truncates -/
+def mulOK : Val → Val → Bool
+  | .fxp _, .fxp _ => false
+  | _, _ => true
+
+def bothBool : Val → Val → Bool
+  | .lcb _, .lcb _ => true
+  | _, _ => false
+
+/-- a binary operator on two evaluated operands: scalars only (`list + list` concatenates) -/
+def binS (op : Val → Val → M Val) (ok : Val → Val → Bool) (x y : TVal) (n : Nat) : M (TVal × Nat) :=
+  match x, y with
+  | .leaf a, .leaf b =>
+    if ok a.toVal b.toVal then do
+      let r ← op a.toVal b.toVal
+      let (o, n) ← freshS r n
+      pure (.leaf o, n)
+    else raise .unmodelled
+  | _, _ => raise .unmodelled
+
+/-- `~a` on a boolean -/
+def notS (x : TVal) (n : Nat) : M (TVal × Nat) :=
+  match x with
+  | .leaf (.sc .bool l _) => do
+    let r ← boolNot l
+    pure (.leaf (.sc .bool r (some n)), n + 1)
+  | _ => raise .unmodelled
+
+mutual
+/-- value of an expression and the next free identity stamp: bare names denote the existing
+objects, every operator result is a new object -/
+def evalE (env : BEnv) (vals : Vals) : BExpr → Nat → M (TVal × Nat)
+  | .var x, n => match vals.get? x with
+    | some t => pure (t, n)
     | none => raise .key                       -- `BranchingValues.__getattr__`: `self.vals[nm]`
-  | .inp i => match env.inputs[i]? with
-    | some o => pure (.lc o.v)
+  | .inp i, n => match env.inputs[i]? with
+    | some o => pure (.leaf o, n)
     | none => raise .index
-  | .const c => pure (.int c)
-  | .loopvar v => match lookupLv env.lvs v with
-    | some k => pure (.int k)
+  | .finp i, n => match env.finputs[i]? with
+    | some o => pure (.leaf o, n)
+    | none => raise .index
+  | .const c, n => pure (.leaf (.pub c), n)
+  | .loopvar v, n => match lookupLv env.lvs v with
+    | some k => pure (.leaf (.pub k), n)
     | none => raise .unmodelled                -- NameError
-  | .add a b => do let x ← evalE env bv a; let y ← evalE env bv b; addV x y
-  | .sub a b => do let x ← evalE env bv a; let y ← evalE env bv b; subV x y
-  | .mul a b => do let x ← evalE env bv a; let y ← evalE env bv b; mulV x y
+  | .add a b, n => do
+    let (x, n) ← evalE env vals a n
+    let (y, n) ← evalE env vals b n
+    binS addV (fun _ _ => true) x y n
+  | .sub a b, n => do
+    let (x, n) ← evalE env vals a n
+    let (y, n) ← evalE env vals b n
+    binS subV (fun _ _ => true) x y n
+  | .mul a b, n => do
+    let (x, n) ← evalE env vals a n
+    let (y, n) ← evalE env vals b n
+    binS mulV mulOK x y n
+  | .cmp op a b, n => do
+    let (x, n) ← evalE env vals a n
+    let (y, n) ← evalE env vals b n
+    binS (cmpV op) cmpOK x y n
+  | .not a, n => do
+    let (x, n) ← evalE env vals a n
+    notS x n
+  | .and a b, n => do
+    let (x, n) ← evalE env vals a n
+    let (y, n) ← evalE env vals b n
+    binS (bwV .and) bothBool x y n
+  | .or a b, n => do
+    let (x, n) ← evalE env vals a n
+    let (y, n) ← evalE env vals b n
+    binS (bwV .or) bothBool x y n
+  | .list es, n => do
+    let (ts, n) ← evalEs env vals es n
+    pure (.node ts, n)
+  | .item e i, n => do
+    let (t, n) ← evalE env vals e n
+    match t with
+    | .node ts => match ts[i]? with
+      | some u => pure (u, n)
+      | none => raise .index
+    | .leaf _ => raise .type
+def evalEs (env : BEnv) (vals : Vals) : BExprs → Nat → M (List TVal × Nat)
+  | .nil, n => pure ([], n)
+  | .cons e es, n => do
+    let (t, n) ← evalE env vals e n
+    let (ts, n) ← evalEs env vals es n
+    pure (t :: ts, n)
+end
 
-/-- a comparison (`LinComb.__lt__` … or the reflected method when the left operand is an int) -/
+/-- a condition: the value must be a scalar (the objects created while evaluating it are not
+stored anywhere, their stamps are released) -/
 def evalC (env : BEnv) (bv : BV) (c : BCond) : M Val := do
-  let x ← evalE env bv c.lhs
-  let y ← evalE env bv c.rhs
-  cmpV c.op x y
+  let (t, _) ← evalE env bv.vals c bv.next
+  match t with
+  | .leaf o => pure o.toVal
+  | .node _ => raise .unmodelled
 
-/-- the existing object an expression denotes when it is a bare name (`_.y`, `inp[i]`) -/
-def leafObj (env : BEnv) (bv : BV) : BExpr → Option Obj
-  | .var x => bv.vals.get? x
-  | .inp i => env.inputs[i]?
-  | _ => none
-
-/-- `_.x = <a new object>` -/
-def bindNew (x : Nat) (v : Val) (bs : BSt) : M BSt :=
-  match v with
-  | .lc l => pure { bs with bv := { vals := bs.bv.vals.set x ⟨l, bs.bv.next⟩, next := bs.bv.next + 1 } }
-  | _ => raise .unmodelled                     -- a tracked variable holding a plain int
-
-/-- `_.x = <value of e>`: a bare name aliases the object, anything else is a new object -/
-def bindVar (env : BEnv) (x : Nat) (e : BExpr) (v : Val) (bs : BSt) : M BSt :=
-  match leafObj env bs.bv e with
-  | some o => pure { bs with bv := { bs.bv with vals := bs.bv.vals.set x o } }
-  | none => bindNew x v bs
+/-- `_.x = <value>`: tracked variables hold secrets -/
+def bindT (x : Nat) (t : TVal) (n : Nat) (bs : BSt) : M BSt :=
+  if t.isSecret then pure { bs with bv := { vals := bs.bv.vals.set x t, next := n } }
+  else raise .unmodelled                       -- a tracked variable holding a plain int
 
 /-- `guarded(cond)(thunk)()`: `add_guard`, run, `restore_guard` (an exception ends the run) -/
 def guardedM {α} (cond : LinComb) (m : M α) : M α := do
@@ -381,14 +626,23 @@ def guardedM {α} (cond : LinComb) (m : M α) : M α := do
   restoreGuard bak
   pure a
 
+/-- `if_then_else` after the branch values exist, without the identity test on the two arguments
+(used for thunked branches: the test was made on the two lambdas): lists element-wise (with the
+test on every pair of elements), scalars by `iteScalar` -/
+def iteVals (cond : LinComb) (tv fv : TVal) (n : Nat) : M (TVal × Nat) :=
+  match tv, fv with
+  | .leaf a, .leaf b => do
+    let r ← iteScalar cond a.toVal b.toVal
+    let (o, n) ← freshS r n
+    pure (.leaf o, n)
+  | _, _ => mergeT cond tv fv n
+
 /-- `if_then_else(cond, lambda: t, lambda: f)` -/
-def iteThunks (cond : LinComb) (t f : M Val) : M Val := do
-  let tv ← guardedM cond t
+def iteThunks (cond : LinComb) (t f : Nat → M (TVal × Nat)) (n : Nat) : M (TVal × Nat) := do
+  let (tv, n) ← guardedM cond (t n)
   let nc ← boolNot cond                        -- `~cond` is computed after the first thunk ran
-  let fv ← guardedM nc f
-  let d ← subV tv fv
-  let pr ← mulLV cond d                        -- `LinCombBool.__mul__`: `self.lc * other`
-  addV fv pr
+  let (fv, n) ← guardedM nc (f n)
+  iteVals cond tv fv n
 
 /-- `for` loops over a counter: `f i` for `i = start, start+1, …` (`n` times) -/
 def iterM {β} : Nat → (Nat → β → M β) → Nat → β → M β
@@ -425,13 +679,29 @@ def whileRound (env : BEnv) (body : BSt → M BSt) (c : BCond) (brk : Option BCo
 mutual
 def execStmt (env : BEnv) : BStmt → BSt → M BSt
   | .assign x e, bs => do
-    let v ← evalE env bs.bv e
-    bindVar env x e v bs
+    let (t, n) ← evalE env bs.bv.vals e bs.bv.next
+    bindT x t n bs
+  | .setitem x path e, bs => do
+    -- the right-hand side first, then `_.x` (`__getattr__`), `[i0]…` and `list.__setitem__`
+    let (t, n) ← evalE env bs.bv.vals e bs.bv.next
+    match bs.bv.vals.get? x with
+    | none => raise .key
+    | some old =>
+      match old.set path t with
+      | some new => bindT x new n bs
+      | none => raise .index
+  | .sel x c t f, bs => do
+    let cv ← evalC env bs.bv c
+    let (tv, n) ← evalE env bs.bv.vals t bs.bv.next
+    let (fv, n) ← evalE env bs.bv.vals f n
+    let cl ← condLC cv
+    let (r, n) ← mergeT cl tv fv n
+    bindT x r n bs
   | .ite x c t f, bs => do
     let cv ← evalC env bs.bv c
     let cl ← condLC cv
-    let r ← iteThunks cl (evalE env bs.bv t) (evalE env bs.bv f)
-    bindNew x r bs
+    let (r, n) ← iteThunks cl (evalE env bs.bv.vals t) (evalE env bs.bv.vals f) bs.bv.next
+    bindT x r n bs
   | .ifs c body rest, bs => do
     let cv ← evalC env bs.bv c
     let bs ← bIf cv bs
@@ -439,7 +709,7 @@ def execStmt (env : BEnv) : BStmt → BSt → M BSt
     execIfRest env rest bs
   | .forr lv bound mx body, bs => do
     -- `_range(bound, max=mx)`; `__next__` #1: `ix = 0`, push `WhileContext(0 != stop)`
-    let stop ← evalE env bs.bv bound
+    let stop ← evalC env bs.bv bound
     match stop with
     | .lc _ => do
       let c0 ← cmpV .ne (.int 0) stop
@@ -448,7 +718,7 @@ def execStmt (env : BEnv) : BStmt → BSt → M BSt
       -- `__next__` #k: `ix += 1`; while `ix < max`: `stack[-1]._while(ix != stop)`, body
       let bs ← iterM (mx - 1) (forRound env lv stop (fun env' bs => execBlock env' body bs)) 1 bs
       bEndwhile bs
-    | _ => raise .unmodelled                   -- a public bound
+    | _ => raise .unmodelled                   -- a public bound, a bound that is not an integer
   | .whil c mx body brk, bs => do
     let c0 ← evalC env bs.bv c
     let bs ← bWhilePush c0 bs
@@ -475,24 +745,72 @@ end
 
 /-! ## a complete run -/
 
-/-- `ctx = BranchingValues(); ctx.x = PrivVal(v) …; inp = [PrivVal(x) …]` -/
-def setupVars : List (Nat × Int) → BV → M BV
+/-- initial value of a scalar: `PrivVal(v)`, `PrivVal(v) == 1`, `PrivValFxp(m / 2^e)` -/
+inductive ILeaf
+  | int (v : Int)
+  | bool (v : Int)
+  | fxp (m : Int) (e : Nat)
+deriving Repr, DecidableEq
+
+/-- initial value of a tracked variable -/
+abbrev IVal := PTree ILeaf
+
+def setupLeaf : ILeaf → Nat → M (SVal × Nat)
+  | .int v, n => do
+    let l ← privVal v
+    pure (.sc .int l (some n), n + 1)
+  | .bool v, n => do
+    let l ← privVal v
+    let b ← cmpV .eq (.lc l) (.int 1)
+    match b with
+    | .lcb c => pure (.sc .bool c (some n), n + 1)
+    | _ => raise .unmodelled
+  | .fxp m e, n => do
+    let r ← mkVal .privx (.flt m e)
+    match r with
+    | .fxp l => pure (.sc .fxp l (some n), n + 1)
+    | _ => raise .unmodelled
+
+mutual
+def setupT : IVal → Nat → M (TVal × Nat)
+  | .leaf a, n => do
+    let (o, n) ← setupLeaf a n
+    pure (.leaf o, n)
+  | .node ts, n => do
+    let (rs, n) ← setupTL ts n
+    pure (.node rs, n)
+def setupTL : List IVal → Nat → M (List TVal × Nat)
+  | [], n => pure ([], n)
+  | t :: ts, n => do
+    let (r, n) ← setupT t n
+    let (rs, n) ← setupTL ts n
+    pure (r :: rs, n)
+end
+
+/-- `ctx = BranchingValues(); ctx.x = …` for every initial variable -/
+def setupVars : List (Nat × IVal) → BV → M BV
   | [], bv => pure bv
   | (x, v) :: rest, bv => do
-    let l ← privVal v
-    setupVars rest { vals := bv.vals.set x ⟨l, bv.next⟩, next := bv.next + 1 }
+    let (t, n) ← setupT v bv.next
+    setupVars rest { vals := bv.vals.set x t, next := n }
 
-def setupInputs : List Int → Nat → M (List Obj)
-  | [], _ => pure []
+/-- `inp = [PrivVal(x) …]`, `finp = [PrivValFxp(x) …]` -/
+def setupInputs : List ILeaf → Nat → M (List SVal × Nat)
+  | [], n => pure ([], n)
   | v :: rest, n => do
-    let l ← privVal v
-    let os ← setupInputs rest (n + 1)
-    pure (⟨l, n⟩ :: os)
+    let (o, n) ← setupLeaf v n
+    let (os, n) ← setupInputs rest n
+    pure (o :: os, n)
 
-/-- the whole case: tracked variables, inputs, program -/
-def runBlock (init : List (Nat × Int)) (inputs : List Int) (prog : BBlock) : M BSt := do
+/-- the whole case: tracked variables, integer inputs, fixed-point inputs, program -/
+def runBlockT (init : List (Nat × IVal)) (inputs : List Int) (finputs : List (Int × Nat)) (prog : BBlock) : M BSt := do
   let bv ← setupVars init {}
-  let inp ← setupInputs inputs bv.next
-  execBlock { inputs := inp } prog { bv := { bv with next := bv.next + inp.length }, stack := [] }
+  let (inp, n) ← setupInputs (inputs.map ILeaf.int) bv.next
+  let (finp, n) ← setupInputs (finputs.map (fun me => ILeaf.fxp me.1 me.2)) n
+  execBlock { inputs := inp, finputs := finp } prog { bv := { bv with next := n }, stack := [] }
+
+/-- integer variables and inputs only -/
+def runBlock (init : List (Nat × Int)) (inputs : List Int) (prog : BBlock) : M BSt :=
+  runBlockT (init.map (fun kv => (kv.1, PTree.leaf (ILeaf.int kv.2)))) inputs [] prog
 
 end Pysnark
